@@ -79,7 +79,7 @@ def case(cid, rng, kind, padded, est):
     try:
         with warnings.catch_warnings():
             warnings.simplefilter("ignore")
-            m = OrthogonalRegression(use_orthogonal_projector=not padded, linear_estimator=lin)
+            m = core.mk(OrthogonalRegression, use_orthogonal_projector=not padded, linear_estimator=lin)
             if lin is not None and rng.random() < 0.6:
                 # history: the same estimator object (and its user-supplied linear estimator) was fitted on other data before
                 m.fit(rng.integers(-4, 5, size=X.shape).astype(float), rng.integers(-4, 5, size=Y.shape).astype(float))
